@@ -15,8 +15,8 @@ import subprocess
 
 from vlib import *
 
-PROP_MODULES = ["QuicProofs.Props.C17Spsc"]
-BRIDGES = ["QuicProofs.Bridge.SyncOrderings"]
+PROP_MODULES = ["QuicProofs.Props.C17Spsc", "QuicProofs.Props.C17SocketTask"]
+BRIDGES = ["QuicProofs.Bridge.SyncOrderings", "QuicProofs.Bridge.SocketTask"]
 
 CRATE_DIR = os.path.join(REPO, "quic", "s2n-quic-core")
 VERIF_LOOM_FILE = os.path.join(CRATE_DIR, "src", "sync", "verif_loom.rs")
@@ -77,7 +77,7 @@ def run(ctx):
                        "sync/cursor.rs, socket/ring.rs and wakeup_queue.rs (handshake + orderings only), allocation. OBSERVATION (outside "
                        "the property text, see notes): State::close touches the header after open.swap and can race with the peer's "
                        "drop_contents/dealloc.")
-    step_extract(ctx, ["sync_orderings"])
+    step_extract(ctx, ["sync_orderings", "socket_task"])
     lean_ok = step_lean(ctx, PROP_MODULES, BRIDGES)
     ok, out = cargo_build("vh-core")
     if not ok:
